@@ -58,6 +58,9 @@ func (e *Envelope) SetPayload(payload any) error {
 	e.envelope = &dsse.Envelope{
 		Payload:     base64.StdEncoding.EncodeToString(encodedBytes),
 		PayloadType: PayloadType,
+		// not nil: an unsigned envelope has to be dumped with an empty
+		// signature list, "signatures": null is refused by LoadMetadata
+		Signatures: []dsse.Signature{},
 	}
 
 	return nil
